@@ -507,7 +507,7 @@ func runCase(rt *rapid.T, c *stats.Case) {
 	var ms []int
 	if WR > 0 {
 		seenM := map[int]bool{}
-		nm := 2 // TestPropFailedWriteInsideOp enumerates all writes of one op; here the faults meet Pebble, the base chain and long-lived objects
+		nm := 1 // TestPropFailedWriteInsideOp enumerates all writes of one op; here the faults meet Pebble, the base chain and long-lived objects
 		if stats.Thorough() {
 			nm = min(WR, 60)
 		}
